@@ -165,6 +165,18 @@ class ForInv(object):
         from pyvc.engine import PathEnd, ContinueSig, BreakSig, Unsupported
         st = I.st
         tag = '%s.loop%d' % key
+        # loop-carried locals (assigned in the body, bound before the loop, not the loop target), in
+        # order of first assignment: invariants name the variables they talk about through this list,
+        # so that renaming a local in /repo does not break (or falsely refute) a contract
+        import ast as _ast
+        tnames = {n.id for n in _ast.walk(s.target) if isinstance(n, _ast.Name)} if hasattr(s, 'target') else set()
+        carried = []
+        for b in s.body:
+            for n in _ast.walk(b):
+                if isinstance(n, _ast.Name) and isinstance(n.ctx, _ast.Store) and n.id not in tnames \
+                        and n.id in fr.env and n.id not in carried:
+                    carried.append(n.id)
+        I.loop_carried = carried
         I.inv_phase = 'init'
         for nm, g in self.inv(I, fr, z3.IntVal(0)):
             st.vc('%s.init:%s' % (tag, nm), g, kind='inv')
